@@ -793,7 +793,6 @@ class Pool(BasePool[C]):
             if min_demand > demand:
                 min_demand = demand
 
-        was_starving = self._is_starving
         self._is_starving = need_conns_at_least >= self._max_capacity
         if self._to_drop:
             for block in self._to_drop:
@@ -857,32 +856,31 @@ class Pool(BasePool[C]):
                     self._log_to_snapshot(
                         dbname=block.dbname, event='reset-quota')
 
-            if not was_starving and self._new_blocks_waitlist:
-                # Mode D assumes all connections are already in use or to be
-                # used, depending on their `release()` to schedule transfers.
-                # When just entering Mode D, there can be a special case when
-                # no further `release()` will be called because all acquired
-                # connections were returned to the pool before `_tick()` got a
-                # chance to set `self._is_starving`, while some other blocks
-                # are literally starving to death (blocked forever).
-                #
-                # This branch handles this particular case, by stealing
-                # connections from the idle blocks and try to free them into
-                # the starving blocks.
+            # Mode D assumes all connections are already in use or to be
+            # used, depending on their `release()` to schedule transfers.
+            # There are cases when no further `release()` will be called:
+            # all acquired connections were returned to the pool before
+            # `_tick()` got a chance to set `self._is_starving`, or a
+            # connection was handed to a block whose requests are gone by
+            # now, while some other blocks are literally starving to death
+            # (blocked forever).
+            #
+            # Handle them by stealing connections from the idle blocks and
+            # try to free them into the starving blocks.
 
-                for block in list(self._blocks.values()):
-                    while self._should_free_conn(block):
-                        if (conn := block.try_steal()) is None:
-                            # no more from this block
-                            break
+            for block in list(self._blocks.values()):
+                while self._should_free_conn(block):
+                    if (conn := block.try_steal()) is None:
+                        # no more from this block
+                        break
 
-                        elif not self._maybe_free_into_starving_blocks(
-                            block, conn
-                        ):
-                            # put back the last stolen connection if we
-                            # don't need to steal anymore
-                            self._release_unused(block, conn)
-                            return
+                    elif not self._maybe_free_into_starving_blocks(
+                        block, conn
+                    ):
+                        # put back the last stolen connection if we
+                        # don't need to steal anymore
+                        self._release_unused(block, conn)
+                        return
 
         else:
             # Mode C: distribute the total connections by calibrated demand
